@@ -415,7 +415,6 @@ package PVM
 //@   let s = input.Addition.ResultContextX.ServiceID
 //@   let bal0 = uint64(xacc(input)[s].ServiceInfo.Balance)
 //@   ensures prologue: g0 < 10 ==> result.ExitReason == ExitOOG && *input.VM.Gas == g0 - 10
-//@   ensures panic_clean: result.ExitReason == ExitPanic ==> frame_only(*input.VM.Gas)
 //@   ensures charged: g0 >= 10 && result.ExitReason == ExitContinue && input.VM.Registers[7] == OK ==> uint64(g0 - 10) >= l && *input.VM.Gas == g0 - 10 - int64(l)
 //@   ensures oog: g0 >= 10 && result.ExitReason == ExitContinue && input.VM.Registers[7] == OK ==> uint64(g0 - 10) >= l
 //@   ensures conserve: g0 >= 10 && result.ExitReason == ExitContinue && input.VM.Registers[7] == OK && has(old(xacc(input)), s) ==> bal0 >= a && uint64(xacc(input)[s].ServiceInfo.Balance) == bal0 - a
